@@ -14,7 +14,7 @@ RULE = ("generated register sets (raw CSRs, storages with/without atomic write, 
 ASSUMPTIONS = ["Migen's simulator (site-packages) defines FHDL semantics",
                "a device write coinciding with a bus write: the addressed word takes the bus value (the property: a bus write changes exactly the addressed bits), all other words the device value",
                "pulse fields are 1 bit wide with reset 0 (as the docstring requires)",
-               "atomic_write with little ordering is a known finding (commit happens on the first address) - excluded by construction, witness replayed"]
+               "atomic_write commits on the last address of the register in both orderings (docstring; little ordering repaired by ade5497, witness replayed)"]
 
 
 def _m(w):
@@ -78,10 +78,6 @@ def st_case(tier):
         busword = draw(st.sampled_from([8, 32]))
         ordering = draw(st.sampled_from(["big", "big", "little"]))
         regs = draw(st_regs(tier, busword))
-        if ordering == "little":
-            for r in regs:
-                if r.get("atomic"):
-                    r["atomic"] = False      # known finding csr-atomic-little (excluded by construction)
         paging = draw(st.sampled_from([0x400, 0x800, 0x800, 0x1000, 0x4000]))
         address = draw(st.integers(0, 3))
         nsteps = draw(st.integers(10, 40 if tier == "quick" else 80))
